@@ -363,6 +363,22 @@ func (x *Exec) callByContract(st *State, fr *Frame, callee *ssa.Function, fc *Fu
 	if sig != nil {
 		x.setResult(fr, pos, x.tuple(res, sig.Results()))
 	}
+	// snapshots taken just after this call (`snapshot name: at after callee#n: expr`, may mention result)
+	if x.fc != nil && len(x.fc.Snapshots) > 0 && fr.Fn == x.fn {
+		site := fmt.Sprintf("after %s#%d", short, ord)
+		for _, sn := range x.fc.Snapshots {
+			if sn.At == site {
+				cenv := x.envFor(st, x.entry, fr).withResultsSig(res, sig, fc)
+				v := x.eval(cenv, sn.Expr)
+				ns := map[string]*Value{}
+				for k, vv := range st.snaps {
+					ns[k] = vv
+				}
+				ns[sn.Label] = v
+				st.snaps = ns
+			}
+		}
+	}
 }
 
 func shortCallee(name string) string {
